@@ -807,7 +807,9 @@ class Gen:
       if not cands:
         return None
     body, b, local = self.small_body(outer)
-    if a is not None and a not in ir.prop_vars(body, None, True):
+    needs_call = (not _is_call_argument(body, a)) if self.f.get('typed') else (a not in ir.prop_vars(body, None, True))
+    if a is not None and needs_call:
+      # the argument must be passed to a table column: its type is then ground (and the body really depends on it)
       body = ('and', tuple(ir_flatten(body)) + (self.correlating_call(a, outer[a], b),))
     op = r.choice(['+=', '+=', 'Min=', 'Max=', 'Count='])
     e, vt = self.agg_expr(op, b)
@@ -862,6 +864,13 @@ class Gen:
     prelude = [('raw', _agg.K_AGG_PRELUDE[k]) for k in sorted(self.k_aggs_used)]
     return {'rules': self.rules, 'annotations': [engine] + prelude, 'preds': self.preds, 'order': list(self.order),
             'features': dict(self.used_features)}
+
+
+def _is_call_argument(body, v):
+  for l in ir_flatten(body):
+    if l[0] == 'call' and any(e == ('var', v) for _, e in l[2]):
+      return True
+  return False
 
 
 def c_is_value_only(args):
